@@ -27,7 +27,7 @@ def required(tier):
     b = {f'prior:{k}': 5 for k in PRIOR}
     b.update({f'bound:{k}': 5 for k in set(work_sig.BOUND_KINDS)})
     b.update({f'flags:{k}': 1 for k in range(16)})
-    b.update({'sequence>=2': 20, 'outside-columns-exist': 50})
+    b.update({'sequence>=2': 20, 'outside-columns-exist': 50, 'cadence-injection-state': 50})
     return {'buckets': b, 'counters': {'pixels_outside_checked': 10000, 'state_digests': 100}, 'checks': 1000, 'nontrivial': 50}
 
 
@@ -174,6 +174,33 @@ def run_case(c, R):
             c01.call_add_signal(fr2, stg, s['spec'], s['opts'], s['brange'], ref, lo, hi)
         okk = np.abs(fr2.data.astype(np.float64) - fr.data.astype(np.float64)) <= (2 * k + 2) * unit
         R.check(bool(np.all(okk)), 'order-of-injection-matters', nbad=int((~okk).sum()))
+    # the same clause for injection through a cadence: every member frame's state other than data is untouched
+    if c['_idx'] % 4 == 0 and c['prior'] != 'float32':
+        R.bucket('cadence-injection-state')
+        s0 = c['sigs'][0]
+        frames = []
+        for k in range(3):
+            f_ = c01.make_frame(stg, g, seed=c['sub'] + k)
+            f_.t_start = 1.7e9 + k * (f_.tchans * f_.dt + 317.0 + 0.123456789 * k)
+            frames.append(f_)
+        cad = stg.Cadence(frames)
+        olds = [state_digest(f_) for f_ in frames]
+        gfs = np.array(frames[0].fs, dtype=float)
+        lo, hi = rsig.bounding_columns(gfs, frames[0].df, frames[0].fchans, s0['brange'])
+        ref = rsig.SignalRef(stg, s0['spec'], (gfs[0] + gfs[-1]) / 2, max(frames[0].df * frames[0].fchans, frames[0].df))
+        ts0 = np.array(frames[0].ts, dtype=float)
+        path, tprof, fprof, bp = rsig.lib_args(stg, s0['spec'], ts0, np.append(ts0, ts0[-1] + frames[0].dt), gfs, lo, hi, s0['opts'], ref)
+        if s0['spec']['bp']['kind'] == 'array':
+            Sf = s0['opts']['f_subsamples'] if s0['opts'].get('integrate_f_profile') else 1
+            bp = ref.bp((gfs[lo:hi][:, None] + np.arange(Sf)[None, :] * frames[0].df / Sf).ravel())
+        kw = dict(s0['opts'])
+        if s0['brange'] is not None:
+            kw['bounding_f_range'] = tuple(s0['brange'])
+        cad.add_signal(path, tprof, fprof, bp, **kw)
+        for k, f_ in enumerate(frames):
+            new_ = state_digest(f_)
+            for key_ in olds[k]:
+                R.check(bool(olds[k][key_] == new_[key_]), 'state-changed:' + key_ + ':cadence-injection', frame=k)
     some_out = any(rsig.bounding_columns(np.array(fr.fs), fr.df, fr.fchans, s['brange']) != (0, fr.fchans) for s in c['sigs'])
     R.mark_nontrivial(changed and (some_out or len(c['sigs']) >= 2))
 
